@@ -366,39 +366,67 @@ void op_invoke(const Program& P, const Call& c, const std::vector<void*>& mods, 
     case OP_LIFE_FFT_BUFFERS: {
       // tables created with built-in scratch buffers: every buffer is BUF_SIZE bytes, usable as transform data
       const uint32_t mm = (uint32_t)c.p[1], nb = (uint32_t)c.p[2];
+      // every built-in buffer must behave like any other data buffer: the transform on it equals, bit for bit, the
+      // transform of the same data with a table that has no buffers (the buffers must not overlap the table)
+      double* ref = (double*)malloc(2 * (size_t)mm * sizeof(double) + 8);
+      int bad = 0;
+      auto fill = [&](double* b, uint32_t i) {
+        for (uint32_t j = 0; j < 2 * mm; ++j) ref[j] = b[j] = (double)((j * 7 + i * 3) % 1000) - 500.0;
+      };
+      auto cmp = [&](const double* b) {
+        if (memcmp(b, ref, 2 * (size_t)mm * sizeof(double)) != 0) bad++;
+      };
       if (c.p[0] == 0) {
         REIM_FFT_PRECOMP* t = new_reim_fft_precomp(mm, nb);
+        REIM_FFT_PRECOMP* t0 = new_reim_fft_precomp(mm, 0);
         for (uint32_t i = 0; i < nb; ++i) {
           double* b = reim_fft_precomp_get_buffer(t, i);
-          for (uint32_t j = 0; j < 2 * mm; ++j) b[j] = (double)(j + i);
+          fill(b, i);
           reim_fft(t, b);
+          reim_fft(t0, ref);
+          cmp(b);
         }
         delete_reim_fft_precomp(t);
+        delete_reim_fft_precomp(t0);
       } else if (c.p[0] == 1) {
         REIM_IFFT_PRECOMP* t = new_reim_ifft_precomp(mm, nb);
+        REIM_IFFT_PRECOMP* t0 = new_reim_ifft_precomp(mm, 0);
         for (uint32_t i = 0; i < nb; ++i) {
           double* b = reim_ifft_precomp_get_buffer(t, i);
-          for (uint32_t j = 0; j < 2 * mm; ++j) b[j] = (double)(j + i);
+          fill(b, i);
           reim_ifft(t, b);
+          reim_ifft(t0, ref);
+          cmp(b);
         }
         delete_reim_ifft_precomp(t);
+        delete_reim_ifft_precomp(t0);
       } else if (c.p[0] == 2) {
         CPLX_FFT_PRECOMP* t = new_cplx_fft_precomp(mm, nb);
+        CPLX_FFT_PRECOMP* t0 = new_cplx_fft_precomp(mm, 0);
         for (uint32_t i = 0; i < nb; ++i) {
           double* b = (double*)cplx_fft_precomp_get_buffer(t, i);
-          for (uint32_t j = 0; j < 2 * mm; ++j) b[j] = (double)(j + i);
+          fill(b, i);
           cplx_fft(t, b);
+          cplx_fft(t0, ref);
+          cmp(b);
         }
         delete_cplx_fft_precomp(t);
+        delete_cplx_fft_precomp(t0);
       } else {
         CPLX_IFFT_PRECOMP* t = new_cplx_ifft_precomp(mm, nb);
+        CPLX_IFFT_PRECOMP* t0 = new_cplx_ifft_precomp(mm, 0);
         for (uint32_t i = 0; i < nb; ++i) {
           double* b = (double*)cplx_ifft_precomp_get_buffer(t, i);
-          for (uint32_t j = 0; j < 2 * mm; ++j) b[j] = (double)(j + i);
+          fill(b, i);
           cplx_ifft(t, b);
+          cplx_ifft(t0, ref);
+          cmp(b);
         }
         delete_cplx_ifft_precomp(t);
+        delete_cplx_ifft_precomp(t0);
       }
+      free(ref);
+      op_selfcheck_errors() = bad;
       break;
     }
     case OP_LIFE_MODULE_PAIR: {
